@@ -288,7 +288,7 @@ impl SimpleZipBlobStore {
             return Err(ZiporaError::not_found(format!(
                 "Record {} not found (max {})",
                 rec_id,
-                self.num_records - 1
+                self.num_records.saturating_sub(1)
             )));
         }
 
